@@ -64,9 +64,38 @@ type Env struct {
 	Tier     string
 	Workers  int
 	BuildDir string
-	builds   sync.Map
-	buildMu  sync.Mutex
-	dirSeq   int64
+	shared   *envShared
+	caseTag  byte // derived from the case under evaluation: decides how its sandbox directories are named
+}
+
+// envShared is the state all per-case views of an Env have in common.
+type envShared struct {
+	builds  sync.Map
+	buildMu sync.Mutex
+	dirSeq  int64
+}
+
+var sharedInit sync.Mutex
+
+func (e *Env) sh() *envShared {
+	sharedInit.Lock()
+	defer sharedInit.Unlock()
+	if e.shared == nil {
+		e.shared = &envShared{}
+	}
+	return e.shared
+}
+
+// forCase returns a view of the environment for one case. Sandbox directories of a case get a name that depends
+// on the case only (so that a confirming re-run and a replay see the same kind of path): one case in eight works
+// below a directory with a blank in its name, one in eight below one with non-ASCII characters.
+func (e *Env) forCase(c Case) *Env {
+	v := *e
+	v.shared = e.sh()
+	b, _ := json.Marshal(c)
+	h := sha256.Sum256(b)
+	v.caseTag = h[5]
+	return &v
 }
 
 // Thorough reports whether the thorough tier was requested.
@@ -82,8 +111,15 @@ func (e *Env) N(quick, thorough int) int {
 
 // TempDir creates a fresh sandbox directory for a case.
 func (e *Env) TempDir() string {
-	n := atomic.AddInt64(&e.dirSeq, 1)
-	d := filepath.Join(e.Scratch, fmt.Sprintf("c%07d", n))
+	n := atomic.AddInt64(&e.sh().dirSeq, 1)
+	name := fmt.Sprintf("c%07d", n)
+	switch e.caseTag % 8 {
+	case 3:
+		name += " with blank"
+	case 6:
+		name += "-\u00e9\u65e5"
+	}
+	d := filepath.Join(e.Scratch, name)
 	_ = os.MkdirAll(d, 0o755)
 	return d
 }
@@ -91,12 +127,13 @@ func (e *Env) TempDir() string {
 // Variant builds (once) another variant of the CLI.
 func (e *Env) Variant(o sut.BuildOpts) (string, error) {
 	key := fmt.Sprintf("%+v", o)
-	if v, ok := e.builds.Load(key); ok {
+	sh := e.sh()
+	if v, ok := sh.builds.Load(key); ok {
 		return v.(string), nil
 	}
-	e.buildMu.Lock()
-	defer e.buildMu.Unlock()
-	if v, ok := e.builds.Load(key); ok {
+	sh.buildMu.Lock()
+	defer sh.buildMu.Unlock()
+	if v, ok := sh.builds.Load(key); ok {
 		return v.(string), nil
 	}
 	h := sha256.Sum256([]byte(key))
@@ -106,7 +143,7 @@ func (e *Env) Variant(o sut.BuildOpts) (string, error) {
 	if err := sut.Build(out, o); err != nil {
 		return "", err
 	}
-	e.builds.Store(key, out)
+	sh.builds.Store(key, out)
 	return out, nil
 }
 
@@ -381,7 +418,7 @@ func safeCheck(p *Property, env *Env, c Case) (v Verdict) {
 			v = Verdict{Status: Inconclusive, Msg: fmt.Sprintf("harness panic: %v", rec)}
 		}
 	}()
-	return p.Check(env, c)
+	return p.Check(env.forCase(c), c)
 }
 
 func shrink(p *Property, env *Env, c Case, v Verdict) (Case, Verdict) {
